@@ -241,6 +241,42 @@ def run(ctx):
     for code in CODES:
         for a0 in ([1.0] if code != '4' else [1.0, 0.5]):
             oracles(ctx, pyhf, code, a0, ntrip=ctx.n(25, 400))
+    # ---------------- multi-cell blocks: several systematics × samples × bins × parameter rows in one call; every entry [s, h, t, b]
+    # must be the scalar function of its own cell (mask broadcasting, einsum index strings, batch axis) — compared with the scalar
+    # reference class and with the model; rows of one systematic deliberately straddle the breakpoints
+    nblock = ctx.n(40, 600)
+    for bi in range(nblock):
+        code = CODES[bi % len(CODES)]
+        a0 = 1.0 if code != '4' else rng.choice([1.0, 0.5])
+        nsys = rng.randint(1, 3); nh = rng.randint(1, 3); nb = rng.randint(1, 4); na = rng.randint(1, 4)
+        trip = [[[gen_triple(rng, code) for _ in range(nb)] for _ in range(nh)] for _ in range(nsys)]
+        hs = [[[[t[0] for t in trip[s_][h]], [t[1] for t in trip[s_][h]], [t[2] for t in trip[s_][h]]] for h in range(nh)] for s_ in range(nsys)]
+        al = [[rng.choice([-2.5, -a0, -0.5 * a0, 0.0, 0.3 * a0, a0, 1.7, 3.0]) for _ in range(na)] for _ in range(nsys)]
+        cls = pyhf.interpolators.get(PYCODE[code])
+        it = cls(hs, subscribe=False, alpha0=a0) if code == '4' and a0 != 1.0 else cls(hs, subscribe=False)
+        got = np.asarray(pyhf.tensorlib.tolist(it(pyhf.tensorlib.astensor(np.asarray(al, dtype=np.float64)))), dtype=float)
+        ctx.count()
+        if got.shape != (nsys, nh, na, nb):
+            ctx.fail(f'C03/block-shape/code{code}', 'result shape is not (systematics, samples, rows, bins)', {'code': code, 'histogramssets': hs, 'alphasets': al}, list(got.shape), [nsys, nh, na, nb])
+            continue
+        sref = slow_ref(pyhf, code, a0)
+        cells = [(trip[s_][h][b][0], trip[s_][h][b][1], trip[s_][h][b][2], al[s_][t]) for s_ in range(nsys) for h in range(nh) for t in range(na) for b in range(nb)]
+        mvals = model_eval(lean, code, cells, True, a0)
+        flat = got.reshape(-1)
+        for k, c in enumerate(cells):
+            rt, at = tol_for(code, c, True)
+            want = float(sref(*c))
+            if not close(float(flat[k]), want, rt, at):
+                idx = np.unravel_index(k, got.shape)
+                ctx.fail(f'C03/block-entry/code{code}', 'an entry of a multi-cell call is not the scalar function of its own cell (down/nominal/up of its systematic, sample, bin; alpha of its systematic and row)',
+                         {'code': code, 'alpha0': a0, 'histogramssets': hs, 'alphasets': al, 'entry[s,h,row,bin]': [int(i) for i in idx], 'cell': c}, float(flat[k]), want,
+                         f'pyhf.interpolators.get({PYCODE[code]!r})(histogramssets)(alphasets)[s][h][row][bin] vs the scalar reference on the cell')
+                break
+            if not close(float(flat[k]), mvals[k], rt, at):
+                ctx.disagree(f'interp-block/{code}', {'histogramssets': hs, 'alphasets': al, 'entry': k, 'cell': c}, mvals[k], float(flat[k]))
+                break
+        ctx.nontrivial(('block', code, nsys, nh, na, nb, bi))
+        ctx.tally('block_shape', f'{nsys}x{nh}x{na}x{nb}')
     # ---------------- histories: call shapes × backend switches, vs fresh instance and vs cache model
     nhist = ctx.n(60, 1500)
     bks = [('numpy', '64b'), ('jax', '64b'), ('pytorch', '64b'), ('tensorflow', '64b'), ('numpy', '32b'), ('pytorch', '32b')]
